@@ -7,6 +7,11 @@ PY="${CGV_PYTHON:-/venv/bin/python}"
 if ! "$PY" -c "import hypothesis" 2>/dev/null; then
   /venv/bin/pip install --no-index --find-links /opt/veriftools/wheels hypothesis || exit 2
 fi
+# atheris (coverage-guided stage of the thorough tier) goes into ./.deps, never into /venv
+if [ ! -d "$here/.deps/atheris" ]; then
+  /venv/bin/pip install -q --no-index --find-links /opt/veriftools/wheels --target "$here/.deps" atheris >/dev/null 2>&1 \
+    || echo "note: atheris not installable; the thorough tier runs without its coverage-guided stage"
+fi
 chmod +x "$here/check" "$here/shim/bin/approxmc"
 mkdir -p "$here/evidence" "$here/replays" "$here/.work"
 PATH="$here/shim/bin:$PATH" PYTHONPATH="$here:$here/shim" PYTHONDONTWRITEBYTECODE=1 "$PY" -m cgv.shimtest 1 || exit 2
